@@ -27,6 +27,49 @@ def gen(ck, params, cfgs):
             cases.append(("addfwd:linearity", (w, n, nm), "addfwd %d %d %d %s %s" % (w, n, nm, nc.flat(vecs[i][1]), nc.flat(vecs[i + 1][1]))))
     return cases
 
+def translated_vs_library(ck, params, exes, model):
+    """the functions TRANSLATED from the source (initialize, ntt_pow_phi, invntt_pow_invphi of gen/GenLoop.v) evaluated inside Coq on the rows
+    of the current tables, against the library itself: validates the translators' reading of the source (a differential test, not a proof)"""
+    rng = ck.rng; terms = []; meta = []
+    have = sorted({c for (b_, c) in exes if 16 <= c[1] <= 64})
+    pick = []
+    for w_ in (16, 32, 64):
+        cs_ = [c for c in have if c[0] == w_]
+        pick += cs_[:1] + ([cs_[-1]] if len(cs_) > 1 else [])
+    for (w, n, nm) in pick:
+        rows = params[w]["rows"][:nm]
+        P = "[%s]" % "; ".join(str(r[0]) for r in rows); Pn = "[%s]" % "; ".join(str(r[1]) for r in rows)
+        G = "[%s]" % "; ".join(str(r[2]) for r in rows); IK = "[%s]" % "; ".join(str(r[3]) for r in rows)
+        tabs = "roots P Pn invk" if w == 64 else "roots P invk"
+        for rep in range(2):
+            data = [rng.randrange(rows[cm][0]) if rep else ((rows[cm][0] - 1 - i) % rows[cm][0]) for cm in range(nm) for i in range(n)]
+            D = "[%s]" % "; ".join(map(str, data))
+            for b in ("serial", "sse", "avx2"):
+                t = ("(let P := %s in let Pn := %s in let roots := %s in let invk := %s in let z := fun k => repeat 0 k in "
+                     "match gen_initialize_u%d 40%%nat %d (z %d%%nat) (z %d%%nat) (z %d%%nat) (z %d%%nat) (z %d%%nat) (z %d%%nat) (z %d%%nat) %d %s with "
+                     "| Some (ph, sph, ipd, ipi, sipi, om, iom) => match gen_ntt_pow_phi_%s_u%d %d %d %s ph sph om P with "
+                     "| Some d1 => match gen_invntt_pow_invphi_%s_u%d 40%%nat %d %d d1 iom ipd ipi sipi P (z %d%%nat) with Some (d2, _) => Some (d1 ++ d2) | None => None end "
+                     "| None => None end | None => None end)") % (P, Pn, G, IK, w, n, 2 * n * nm, 2 * n * nm, n * nm, n * nm, nm, n * nm, n * nm, nm, tabs, b, w, n, nm, D, b, w, n, nm, n + 1)
+                terms.append(t); meta.append((w, n, nm, b, data))
+    res, err = vf.coq_eval("C02_translated", "From Coq Require Import ZArith List.\nFrom NTT.gen Require Import GenLoop.\nImport ListNotations.\nLocal Open Scope Z_scope.", terms)
+    if err:
+        ck.violation("the translated transforms do not evaluate inside Coq: %s" % err[-300:], {"coqc": err}, tag="treval", no_input=True); return 0
+    bad = 0
+    for (w, n, nm, b, data), r in zip(meta, res):
+        cfg = (w, n, nm)
+        exe = exes.get((b, cfg)) or exes.get(("serial", cfg))
+        if exe is None: continue
+        line = "fwd %d %d %d %s" % (w, n, nm, " ".join(map(str, data)))
+        rc, o, e = vf.run_io([exe], line + "\n", timeout=120)
+        impl = [int(x) for x in o.split()] if rc == 0 else None
+        if r is None or impl is None or r[:n * nm] != impl or r[n * nm:] != data:
+            bad += 1
+            if bad <= 2:
+                ck.violation("the source translated on this run (initialize, ntt_pow_phi, invntt_pow_invphi of the %s build, evaluated inside Coq) and the library disagree: case '%s' translated='%s' library='%s'" % (b, line[:120], str(r)[:160], str(impl)[:160]),
+                             {"case": line, "backend": b, "translated": r, "library": impl}, tag="treval", no_input=(r is not None and impl is not None and r[n * nm:] == data and False))
+    ck.stream("translated initialize / ntt_pow_phi / invntt_pow_invphi evaluated inside Coq vs the library (forward words equal, round trip returns the input)", len(terms), len(terms))
+    return len(terms)
+
 def run(ck):
     ok, info = vf.translate()
     params = vf.read_params()
@@ -52,6 +95,7 @@ def run(ck):
     ck.cov["configs"] = ["u%d n=%d nm=%d" % c for c in cfgs]
     ck.samples = [l[:200] for _, _, l in cases[:: max(1, len(cases) // 8)]][:8]
     nc.report(ck, fails, corr)
+    ck.cov["translated_vs_library"] = translated_vs_library(ck, params, exes, model)
     ck.assumptions = ["list-level lazy transform model (Transform.v/Inverse.v/NTTInst.v) vs nfl::poly::ntt_pow_phi / invntt_pow_invphi, all stored words compared",
                       "SIMD configurations restricted to those the build accepts (n>=8, n>=16 for 16-bit AVX2)"]
     vf.run_deps(ck, ['C03', 'C17'])
